@@ -560,6 +560,7 @@ func (fv *FnVerifier) enterLoop(h *ssa.BasicBlock, st *State) {
 		fv.q.assume("(>= " + na + " " + st.alloc + ")")
 		st.alloc = na
 	}
+	fv.havocSeenAtHead(h, st)
 	for _, in := range h.Instrs {
 		phi, ok := in.(*ssa.Phi)
 		if !ok {
